@@ -552,6 +552,8 @@ class Interp(object):
                 cur = state.env.get(test.left.id)
                 if cur is not None and is_none:
                     state.env[test.left.id] = const_av(None)
+                elif cur is not None and "maybe-none" in cur.tags:
+                    state.env[test.left.id] = cur.replace(tags=cur.tags - frozenset(["maybe-none"]))       # present on this branch
 
     def _subst_sym(self, state, atom, k):
         def fix(av):
@@ -575,6 +577,37 @@ class Interp(object):
         it = self.ev(st.iter, fr)
         # a loop over a short sequence whose items are known one by one (a literal tuple of two components, a zip of such ...) is run item
         # by item, in order: exactly what the loop does; only when the body cannot leave the loop early
+        if it.kind in (K_TUPLE, K_LIST) and it.items is not None and 1 <= len(it.items) <= 4 and it.note != "range" and \
+                all(x is not None for x in it.items) and \
+                any(isinstance(n, (ast.Break, ast.Return)) for b in st.body for n in ast.walk(b)) and \
+                not any(isinstance(n, ast.Continue) for b in st.body for n in ast.walk(b)):
+            # a search through a short table of known entries (`for key, val in TABLE: if x == key: ...; break` with an else clause): run
+            # entry by entry; a break leaves the loop past the else clause, exhaustion runs it
+            self.stats["loops"] += 1
+            out = Flow(None)
+            brk = None
+            cur = fr.state
+            for item in it.items:
+                fr.state = cur
+                self.assign(st.target, item, fr, st, quiet=True)
+                f = self.exec_block(st.body, fr)
+                out.raises += f.raises
+                out.returns += f.returns
+                for b_ in f.breaks:
+                    brk = join_states(brk, b_)
+                cur = f.normal
+                if cur is None:
+                    break
+            done = cur
+            if done is not None and st.orelse:
+                fr.state = done
+                fe = self.exec_block(st.orelse, fr)
+                out.absorb(fe)
+                done = fe.normal
+            res = join_states(done, brk) if (done is not None and brk is not None) else (done if done is not None else brk)
+            out.normal = res
+            fr.state = res
+            return out
         if it.kind in (K_TUPLE, K_LIST) and it.items is not None and 1 <= len(it.items) <= (4 if it.note != "range" else 2) and not st.orelse and \
                 all(x is not None for x in it.items) and \
                 not any(isinstance(n, (ast.Break, ast.Continue, ast.Return)) for b in st.body for n in ast.walk(b)):
@@ -624,24 +657,29 @@ class Interp(object):
             self.emit("unmodelled", fr, st, what="loop did not stabilise")
         flow_out.returns += last_flow.returns
         flow_out.raises += last_flow.raises
-        for b in last_flow.breaks:
-            exits.append(b)
         if final_after is not None:
             exits.append(final_after)
-        out = None
+        # the else clause runs when the iteration is exhausted, not after a break
+        done = None
         for e in exits:
-            out = join_states(out, e)
-        if out is not None:
-            pc = dict(outer_pc)
-            if last_flow.has_jump():
-                for at, c in trip_pc.items():
-                    pc_merge(pc, at, c)
-            out.pc = pc
+            done = join_states(done, e)
+        brk = None
+        for b in last_flow.breaks:
+            brk = join_states(brk, b)
+        pc = dict(outer_pc)
+        if last_flow.has_jump():
+            for at, c in trip_pc.items():
+                pc_merge(pc, at, c)
+        if done is not None:
+            done.pc = dict(pc)
             if st.orelse:
-                fr.state = out
+                fr.state = done
                 fe = self.exec_block(st.orelse, fr)
                 flow_out.absorb(fe)
-                out = fe.normal
+                done = fe.normal
+        out = join_states(done, brk) if (done is not None and brk is not None) else (done if done is not None else brk)
+        if out is not None:
+            out.pc = pc
         flow_out.normal = out
         fr.state = out
         return flow_out
